@@ -22,3 +22,7 @@ package common
 //@   trusted
 //@   requires value != nil
 //@   ensures result == bigNeg[uint64(value)]
+
+// inspects the first character of the field name (unicode tables): trusted, pure
+//@ func IsFieldExported
+//@   trusted
